@@ -761,6 +761,7 @@ func c12NewGame(run *vl.Run, shard, n int) {
 // c12RealSearches: sessions whose searches are not depth limited (only the clock or stop ends them), run under the
 // step-cost / time-slice model so that timers fire while the search computes; default schedule plus bound 1.
 func c12RealSearches(run *vl.Run) {
+	defer func() { config.Settings.Search.UseTT = true }() // a script switches the hash table off (process-global)
 	scripts := [][]string{
 		{"position fen " + lcFens["A"], "go movetime 25", "<await>"},
 		{"position fen " + lcFens["A"], "go movetime 25", "<await>", "go infinite", "<idle>", "stop", "<await>"},
@@ -772,6 +773,9 @@ func c12RealSearches(run *vl.Run) {
 		{"position startpos", "go wtime 150 btime 150 movestogo 10", "<await>", "position startpos moves e2e4", "go wtime 100 btime 150 movestogo 10", "<await>"},
 		{"position fen " + lcFens["A"], "go searchmoves a1b1 depth 2", "<await>", "go depth 2 searchmoves a1a2 a1b2", "<await>"},
 		{"position startpos", "go infinite searchmoves g1f3 b1c3", "<idle>", "stop", "<await>"},
+		// searches longer than a second (virtual): the periodic search-update path, with and without hash table
+		{"position startpos", "go movetime 1200", "<await>"},
+		{"setoption name Use_Hash value false", "position startpos", "go movetime 1200", "<await>", "go infinite", "<idle>", "stop", "<await>"},
 	}
 	for _, sc := range scripts {
 		sc := sc
@@ -779,6 +783,7 @@ func c12RealSearches(run *vl.Run) {
 		body := func() {
 			config.Settings.Search.UseBook = false
 			config.Settings.Search.TTSize = 1
+			config.Settings.Search.UseTT = true // a script may switch it off (process-global)
 			s := newSession()
 			sess = s
 			gos := 0
